@@ -180,7 +180,7 @@ def run(rep, tier, seed):
     tg = G.TypedGen(rng)
     ug = G.Gen(rng)
     items = []
-    n_typed = 30000 if quick else 150000
+    n_typed = 30000 if quick else 500000
     for _ in range(n_typed):
         items.append(("typed", tg.any(rng.choice([1, 2, 2, 3, 3, 4, 5]))))
     # systematic typed pairs: every int/bool/double operator with every operator as operand is covered by the random
@@ -230,7 +230,7 @@ def run(rep, tier, seed):
         items.append(("typed", t))
         items.append(("raw", t))
     # untyped trees: accepted by the expression parser (no diagnostics) though not necessarily well typed
-    for _ in range(15000 if quick else 60000):
+    for _ in range(15000 if quick else 250000):
         items.append(("raw", ug.tree(rng.choice([2, 3, 4]))))
     texts = [G.render_min(t, rng) for _, t in items]
     typed_idx = [i for i, (k, _) in enumerate(items) if k == "typed"]
@@ -285,7 +285,7 @@ def run(rep, tier, seed):
         rep.violations[key]["count"] += len(lst) - 1
     # ---- queries
     qmodel = Q.MODEL
-    qitems = Q.catalogue(rng, 6000 if quick else 30000)
+    qitems = Q.catalogue(rng, 6000 if quick else 120000)
     qres = exprlab.run_queries([q for _, q in qitems], qmodel, flags="w", batch=25, tag="q3")
     forms_ok = {}
     for (form, text), (r, case, crash) in zip(qitems, qres):
